@@ -136,6 +136,23 @@ def build_corpus(fam, tier, seed, grammars=None):
             for s in all_inputs(g):
                 f.write("%s\t%s\n" % (g.id, s.encode("utf-8").hex()))
                 n += 1
+    # the long inputs (real_extra) are model-checked too, in lean mode: no ghost variables, no exhaustive part
+    import copy
+    lean = []
+    for g in gs:
+        if getattr(g, "real_extra", None) and "nocompile" not in g.meta.get("flags", "-") and "typesonly" not in g.meta.get("flags", "-"):
+            h = copy.copy(g)
+            h.meta = dict(g.meta)
+            h.meta["lean"] = True
+            h.maxlen = -1
+            h.extra = list(g.real_extra)
+            lean.append(h)
+    lp = os.path.join(cdir, "corpus_lean.json")
+    if lean:
+        with open(lp, "w") as f:
+            json.dump(peg.corpus_json(lean), f, separators=(",", ":"))
+    elif os.path.exists(lp):
+        os.remove(lp)
     with open(os.path.join(cdir, "stamp"), "w") as f:
         f.write(key)
     mark(d, "corpus", key)
@@ -218,15 +235,17 @@ def parse_tlc_output(outfile):
     return res
 
 
-def tlc_corpus(fam, tier, seed, cdir, cfg="MCPeg.cfg", module="MCPeg.tla", workers=None, timeout=3600):
+def tlc_corpus(fam, tier, seed, cdir, cfg="MCPeg.cfg", module="MCPeg.tla", workers=None, timeout=3600, corpus="corpus.json"):
     """model-check the PEG machine over a corpus -> parsed result (cached on tool hash)"""
     d = famdir(fam, tier)
-    key = "tlc:%s:%s:%s:%s" % (tool_hash(), tier, seed, cfg)
-    out = os.path.join(d, "tlc_%s.out" % cfg.replace(".cfg", ""))
+    tag = cfg + ("" if corpus == "corpus.json" else ":" + corpus)
+    key = "tlc:%s:%s:%s:%s" % (tool_hash(), tier, seed, tag)
+    out = os.path.join(d, "tlc_%s%s.out" % (cfg.replace(".cfg", ""), "" if corpus == "corpus.json" else "_lean"))
     pj = out + ".json"
-    if cached(d, "tlc_" + cfg, key) and os.path.exists(pj):
+    cfg_key = "tlc_" + cfg + ("" if corpus == "corpus.json" else "_lean")
+    if cached(d, cfg_key, key) and os.path.exists(pj):
         return json.load(open(pj))
-    rc, secs = run_tlc(module, cfg, out, env={"CORPUS": os.path.join(cdir, "corpus.json")}, workers=workers,
+    rc, secs = run_tlc(module, cfg, out, env={"CORPUS": os.path.join(cdir, corpus)}, workers=workers,
                        timeout=timeout, extra=("-coverage", "1"))
     res = parse_tlc_output(out)
     res["rc"] = rc
@@ -239,7 +258,7 @@ def tlc_corpus(fam, tier, seed, cdir, cfg="MCPeg.cfg", module="MCPeg.tla", worke
         raise ToolError("TLC failed (rc=%d), see %s" % (rc, out))
     json.dump(res, open(pj, "w"))
     if rc == 0:
-        mark(d, "tlc_" + cfg, key)
+        mark(d, cfg_key, key)
     return res
 
 
